@@ -57,7 +57,7 @@ def find_clang():
 def preprocess(wrapper_path, out_path, extra, native=False):
     cmd = [find_clang()] + repo_flags() + [
         '-fblocks'] + ([] if native else ['-fgnuc-version=12.2.0']) + ['-D_Nullable=', '-D_Nonnull=', '-D_Null_unspecified=',
-        '-D__builtin_assume(x)=__CPROVER_assume(x)',
+        '-D__builtin_assume(x)=__verif_compiler_hint(x)',
         '-include', os.path.join(VERIF, 'model', 'verif_model.h'),
         '-I' + os.path.join(VERIF, 'model'), '-I' + VERIF,
     ] + extra + ['-E', '-P', wrapper_path, '-o', out_path]
